@@ -453,7 +453,7 @@ def jobs(tier):
 
 def meta(tier):
     return dict(
-        bounds=dict(templates="concrete small templates (bins 2x2, 3x3, 4x3; 3-4 items; min_bins 1-2; 0-3 slack pairs; thorough adds 4x2, 4x4, 5x3, 6x4 bins and 5 items), large ones split over the sign bits of the first entries",
+        bounds=dict(templates="concrete small templates (strips 4x1, 1x4, 5x1; bins 2x2, 3x3, 4x3; 3-4 items; min_bins 1-2; 0-3 slack pairs; thorough adds 4x2, 4x4, 5x3, 6x4 bins and 5 items), large ones split over the sign bits of the first entries",
                     similarity="Errors objective on symbolic templates with 1-3 item types (thorough 4), dimensions <= 50: 0 on the template, no exception and [0,1] on every instance with the template's bin and item count",
                     x="every entry: sign bit + arbitrary integer truncation of each product int(k*x_i) in [-k, k] (covers -1, 0, 1 and all values between)"),
         outside=["lower_bound_bins == min_bins follows from the area invariant only together with C03 (checked on replayed witnesses)", "hardness objectives (inner optimisation runs)",
